@@ -83,6 +83,13 @@ def run_step(w, st, res):
         st = dict(st, p=w.pmap.get(st['p'], st['p']))
     if isinstance(st.get('third'), dict) and 'p' in st['third']:
         st = dict(st, third=dict(st['third'], p=w.pmap.get(st['third']['p'], st['third']['p'])))
+    if 'fail_cmd' in st:
+        # a branch pushed by somebody else BETWEEN two jobs, then a read-side git command of the job fails
+        if st['fail_cmd'].get('third_before'):
+            w.sync_mirror()
+            w.third_create_branch('feature/third-party')
+            w.observe('env', act=dict(a='third', act='create_branch_between_jobs'))
+        w.fail_cmd = dict(match=st['fail_cmd']['match'], nth=st['fail_cmd'].get('nth', 0))
     if 'crash_at' in st:
         w.crash_at = st['crash_at']
     if 'reject' in st:
@@ -322,6 +329,7 @@ def run_scenario(scn, scratch, tid=0, keep=False):
             # after a fault, the documented queue reset is applied and the event delivered again
             if scn.get('fault') and st['a'] in ('eval_pr', 'eval_commit', 'eval_child') and isinstance(r, dict) \
                     and r.get('status') in ('QueueOutOfOrder', 'IncoherentQueues') and 'crash_at' not in st \
+                    and 'fail_cmd' not in st \
                     and 'reject' not in st and 'third' not in st:
                 w.api_job('RebuildQueues')
                 w.drain()
